@@ -658,7 +658,12 @@ impl<'a, 'c> Enc<'a, 'c> {
                         let v = if let Some(neg) = cv.strip_prefix('-') {
                             (-(neg.parse::<i64>().map_err(|_| "bad const")?)) as u64
                         } else {
-                            parse_int(cv).ok_or_else(|| format!("bad constant {}", cv))?
+                            // a quoted constant on an integer field ("\0WoW") is the big-endian number of its bytes
+                            match parse_int(cv) {
+                                Some(v) => v,
+                                None if !cv.is_empty() && cv.len() <= 16 && !cv.chars().any(|c| c.is_whitespace()) => crate::wowm::string_value(cv),
+                                None => return Err(format!("bad constant {}", cv)),
+                            }
                         };
                         put_int(&mut self.out, v, w, be);
                         self.rec(off, FKind::Const, &f.name);
